@@ -16,7 +16,7 @@ EXPLANATION = (
 )
 TRUSTED = _c02.TRUSTED
 ASSUMPTIONS = _c02.ASSUMPTIONS + ["binary exponent of the argument is concrete per obligation (grid below); mod: operand signs concrete per obligation"]
-BUDGET = {'quick': dict(ob_deadline_s=100, total_s=150), 'thorough': dict(ob_deadline_s=900, total_s=1800)}
+BUDGET = {'quick': dict(ob_deadline_s=100, total_s=150), 'thorough': dict(ob_deadline_s=600, total_s=1500)}
 BOUNDS = {'quick': 'mantissa 1..12 bits, exponents -14..4, precisions 0 (exact) and 1..8, all modes; mod operands <= 9 bits, offsets -14..8',
           'thorough': 'mantissa up to 64 bits, exponents -70..10, mod operands up to 16 bits'}
 
